@@ -31,10 +31,19 @@ pub fn info() -> PropInfo {
         id: "C12",
         run,
         replay,
-        rule: "cases = (well-formed document with repeated names at several depths, <n/> and <n></n> forms, comments/CDATA/PIs/attribute values/text containing look-alike end tags, blanks before '>' of end tags; a start event of that document; trim_text_start/trim_text_end/expand_empty_elements; read_to_end / read_text on the slice, read_to_end_into on a chunked source, read_to_end_into_async; optionally the document truncated somewhere after the chosen start tag). Oracle from the generator's tree: the returned span is exactly (end of the start tag, offset of '<' of the matching end tag), empty for an expanded empty element; read_text returns input[span]; the next event equals the event following that end tag in a plain full read; config() after the call equals config() before it, also when the call fails. EVERY start event of sampled documents, plus proptest (document, start, truncation). Non-trivial = the skipped element contains a nested element of the same name or a look-alike end tag, or the call failed.",
+        rule: "cases = (well-formed document with repeated names at several depths, <n/> and <n></n> forms, comments/CDATA/PIs/attribute values/text containing look-alike end tags, blanks before '>' of end tags; a start event of that document; trim_text_start/trim_text_end/expand_empty_elements, name trimming on/off (off: documents without blanks in end tags), name checking on/off; read_to_end / read_text on the slice, read_to_end_into on a chunked source, read_to_end_into_async; optionally the document truncated somewhere after the chosen start tag). Oracle from the generator's tree: the returned span is exactly (end of the start tag, offset of '<' of the matching end tag), empty for an expanded empty element; read_text returns input[span]; the next event equals the event following that end tag in a plain full read; config() after the call equals config() before it, also when the call fails. EVERY start event of sampled documents, plus proptest (document, start, truncation). Non-trivial = the skipped element contains a nested element of the same name or a look-alike end tag, or the call failed.",
         assumptions: &["documents are well-formed; name checking stays on (default)", "a truncated document must make the call fail when the cut lies before the end of the matching end tag"],
         level: "exploration",
         variants: &["full"],
+    }
+}
+
+fn strip_end_ws(e: &mut Elem) {
+    e.end_ws = 0;
+    for c in e.children.iter_mut() {
+        if let Node::Elem(x) = c {
+            strip_end_ws(x);
+        }
     }
 }
 
@@ -54,8 +63,15 @@ fn lookalike_inside(r: &Rendered, id: usize) -> bool {
 }
 
 pub fn check(c: &Case) -> Verdict {
-    let rendered = render(&c.doc);
-    let cfg = (c.cfg & (TRIM_START | TRIM_END | EXPAND_EMPTY)) | CHECK_END_NAMES | TRIM_NAMES;
+    // with end-name trimming off an end tag with blanks before '>' does not carry the element's
+    // name any more (documented): such documents are only used with trimming on
+    let trim_names = c.cfg & TRIM_NAMES != 0;
+    let mut doc = c.doc.clone();
+    if !trim_names {
+        strip_end_ws(&mut doc.root);
+    }
+    let rendered = render(&doc);
+    let cfg = (c.cfg & (TRIM_START | TRIM_END | EXPAND_EMPTY | TRIM_NAMES | CHECK_END_NAMES)) | if c.cfg & 1 == 0 { CHECK_END_NAMES } else { 0 };
     let expand = cfg & EXPAND_EMPTY != 0;
     // candidate start events
     let cands: Vec<usize> = rendered.flat.iter().enumerate().filter(|(_, f)| matches!(f.kind, FlatKind::Start(_)) || (expand && matches!(f.kind, FlatKind::Empty(_)))).map(|(k, _)| k).collect();
@@ -233,7 +249,7 @@ fn run(ctx: &Ctx) {
             for k in 0..n {
                 for variant in 0..4u8 {
                     let cfgsel = (i as usize + k + variant as usize) % 8;
-                    let cfg = [0, TRIM_START, TRIM_END, TRIM_START | TRIM_END, EXPAND_EMPTY, EXPAND_EMPTY | TRIM_START, EXPAND_EMPTY | TRIM_END, EXPAND_EMPTY | TRIM_START | TRIM_END][cfgsel];
+                    let cfg = [0, TRIM_START, TRIM_END, TRIM_START | TRIM_END, EXPAND_EMPTY, EXPAND_EMPTY | TRIM_START, EXPAND_EMPTY | TRIM_END, EXPAND_EMPTY | TRIM_START | TRIM_END][cfgsel] | if (i as usize + k) % 3 == 0 { 0 } else { TRIM_NAMES } | if (k + variant as usize) % 5 == 0 { 1 } else { 0 };
                     out.push(Case { doc: d.clone(), target: ((k * 65536 + 32768) / n) as u16, cfg, variant, piece: [0, 1, 2, 5][(k + i as usize) % 4], truncate: None });
                 }
             }
@@ -253,7 +269,7 @@ fn run(ctx: &Ctx) {
             let len = r.text.len();
             let mut out = vec![];
             for t in 0..=len.min(200) {
-                out.push(Case { doc: d.clone(), target: (i as u16).wrapping_mul(7919), cfg: [TRIM_START, 0, TRIM_START | TRIM_END][t % 3], variant: (t % 4) as u8, piece: 1, truncate: Some(((t * 65536) / (len.min(200) + 1)) as u16) });
+                out.push(Case { doc: d.clone(), target: (i as u16).wrapping_mul(7919), cfg: [TRIM_START | TRIM_NAMES, 0, TRIM_START | TRIM_END | TRIM_NAMES][t % 3], variant: (t % 4) as u8, piece: 1, truncate: Some(((t * 65536) / (len.min(200) + 1)) as u16) });
             }
             out
         },
